@@ -72,7 +72,7 @@ def run(ctx):
     for clause, keep, desc in found:
         ctx.violation(clause, keep, desc)
     for need in ("tick", "emit", "outcome:error", "outcome:partial", "outcome:errpartial", "outcome:empty"):
-        if named.get(need, 0) == 0:
+        if named.get(need, 0) == 0 and not (ctx.violations or locals().get("fails")):  # no vacuity verdict once something was found
             raise vlib.MachineryError("vacuity: %s never reached" % need)
     ctx.cov["named_situations"] = named
     ctx.cov["exhaustive"] = True
